@@ -551,6 +551,16 @@ def r30_for_map(src, item, ed, opts):
         k = sp.get("k", "vx_j")
         es = sp.get("es", "vx_es")
         pat = src.text(*n["pat"])
+        mi = re.fullmatch(r"(.+)\.iter_mut\(\)", ex, re.S)
+        pm2 = re.fullmatch(r"\(\s*(\w+)\s*,\s*(\w+)\s*\)", pat.strip())
+        if mi and pm2:
+            # `for (K, V) in M.iter_mut()`: every entry once with its value mutable.  The loop runs over a copy
+            # of the keys; the body may touch V only through field assignments that the sidecar shims into
+            # writes through (M, K) — anything else about V does not compile in the verified text
+            ed.replace(n["range"][0], n["body"][0], f"let {es} = {sp.get('entries', 'vx_map_keys_cloned')}(&{mi.group(1).strip()}); let mut {k}: usize = 0; {sp.get('ghost_after_let', '')} while {k} < {es}.len() ", "R30")
+            ed.insert(n["body"][0] + 1, f" let {pm2.group(1)} = &{es}[{k}]; {k} += 1; ", "R30", prio=-5)
+            ed.count("R30")
+            continue
         mk = re.fullmatch(r"(.+)\.keys\(\)", ex, re.S)
         if mk:
             # `for K in M.keys()`: the keys, each exactly once, unspecified order
@@ -652,6 +662,8 @@ def _compose_shim(src, item, ed, sp, n, kind):
         rng["operand"] = tuple(n["operand"])
     elif kind == "cast":
         rng["expr"] = tuple(n["expr"])
+    elif kind == "assign":
+        rng["right"] = tuple(n["right"])
     elif kind == "ref_index":
         rng["base"] = tuple(n["_idx"]["expr"])
         rng["index"] = tuple(n["_idx"]["index"])
